@@ -294,8 +294,13 @@ size_t resolve_code(uint32_t code, size_t size) {
 long long int_value(uint32_t i) {
     static const long long T[] = {0, 1, -1, 7, -9, 10, 99, -100, 255, 256, 4096, -4097, 12345, -12345, 32767, -32767, 65535, 65536,
                                   1000000007LL, -999999999LL, 2147483647LL, -2147483647LL, 4294967295LL, 4294967296LL,
-                                  9223372036854775807LL, -9223372036854775807LL, 1234567890123456789LL, -1234567890123456LL};
+                                  9223372036854775807LL, -9223372036854775807LL, 1234567890123456789LL, -1234567890123456LL,
+                                  -2147483648LL, -9223372036854775807LL - 1, -32768};      // (appended: the most negative int / long long / short)
+#ifdef SIMRT_ASAN
+    return T[i % (sizeof T / sizeof T[0] - 3)];      // the sanitizer build stays away from the most negative values (std::abs() on them is C12's finding, section 3.3)
+#else
     return T[i % (sizeof T / sizeof T[0])];
+#endif
 }
 double dbl_value(uint32_t i) {
     static const double T[] = {0.0, 1.0, -1.0, 1.5, -2.25, 3.14159, 16384.0, 0.0234, 1e10, 1e-5, 123456789.125, -0.5e-7, 99999.5,
